@@ -56,6 +56,7 @@ Next ==
     \/ \E f \in BOOLEAN : Drain(f)
     \/ \E n \in ResArgs, ru \in RuAll : ReserveCall(n, ru)
     \/ \E m \in ShrArgs : ShrinkTo(m)
+    \/ \E h \in ResArgs, ru \in RuAll : ExtendReserve(h, ru)
     \/ \E ru \in RuAll : CloneSelf(ru)
     \/ \E D \in DestTables, ru \in RuAll : CloneFromInto(D, ru)
 
